@@ -148,8 +148,9 @@ def stream_print(ctx, res):
     back = [impl.call(Size.from_string, p) for _, p in reparse]
     for (s, p), b in zip(reparse, back):
         res["evaluations"] += 1
+        # float(printed) is the binary64 nearest to the printed decimal: relative error 2^-53 on top of the 1/200
         good = isinstance(b, Ok) and b.v.unit == s.unit and abs(exact(b.v.value) - exact(s.value)) <= Fraction(1, 200) \
-            + Fraction(1, 10**9) and str(b.v) == p
+            + Fraction(1, 10**9) + abs(exact(s.value)) / 2**52 and str(b.v) == p
         if not good:
             res["violations"].append({"kind": "print-reparse", "replay": "print", "input": [repr(s.value), s.unit.value],
                                       "impl_obs": repr(b), "what": f"Size.from_string(str(Size({s.value!r}, "
